@@ -46,3 +46,33 @@ pub fn parse_list_tok(tok: &str) -> Vec<Multiaddr> {
         tok.split(';').map(parse_tok).collect()
     }
 }
+
+/// After `hcore::warp` under the FROZEN clock: wait (bounded) until futures-timer's helper thread has
+/// processed the current time. A probe `Delay` due *now*, created after every timer of the system
+/// under test, must have fired; a second probe makes sure the helper's pass that fired the first one
+/// is complete (timers with equal deadlines fire in one pass). Returns false if the timer is stuck.
+pub fn settle_timers() -> bool {
+    use futures::FutureExt;
+    let w = futures::task::noop_waker();
+    let mut cx = std::task::Context::from_waker(&w);
+    for _ in 0..2 {
+        let mut probe = futures_timer::Delay::new(std::time::Duration::ZERO);
+        let mut fired = false;
+        for i in 0..200_000u32 {
+            if probe.poll_unpin(&mut cx).is_ready() {
+                fired = true;
+                break;
+            }
+            drop(futures_timer::Delay::new(std::time::Duration::ZERO)); // kick the helper thread
+            if i < 50 {
+                std::thread::yield_now();
+            } else {
+                std::thread::sleep(std::time::Duration::from_micros(100));
+            }
+        }
+        if !fired {
+            return false;
+        }
+    }
+    true
+}
